@@ -195,7 +195,7 @@ def run(facts, rep, ctx):
                             continue
                         seen_access = True
                         idx = e["args"][1]
-                        env = {("p", 2): 100}
+                        env = {("p", 1): Ref({"data": {"len": 1000}}), ("p", 2): 100}
                         if cat == "bytes_read":
                             env[("p", 3)] = 7
                         elif cat == "bytes_write":
@@ -203,7 +203,7 @@ def run(facts, rep, ctx):
                         try:
                             v = deref(E.ev(idx, env, b))
                         except (Unknown, Panic) as u:
-                            viol = "index expression not evaluable: %s" % u
+                            rep.inconc(R3, "%s: index expression not evaluable: %s" % (b.name, u))
                             continue
                         if isinstance(v, Adt) and len(v.fields) == 2:
                             lo, hi = v.fields
